@@ -35,7 +35,7 @@ RULE = (
     "of the clean output, and a clean call on the same closure follows. (3) Schedules: 2-3 threads with drawn "
     "create/use programs start from cold caches under a deterministic line-granularity scheduler (sys.settrace in "
     "src/kio, token passing); the interleaving is a drawn list of <=3 preemptions (global step, target thread); "
-    "additionally ONE preemption is swept over EVERY step of fixed two/three-thread programs (warm and cold caches, two different values of one class) exhaustively, and EVERY PAIR of preemptions (park thread 0 at k1, park thread 1 at k2, resume 0, then 1) is swept over a warm two-thread program whose values hold multi-item arrays. Additionally one preemption is swept over every step of thread 0 working on class X while thread 1 works on a DIFFERENT class Y (warm encode and decode), for consecutive pairs of a greedy cover of small classes that together contain every field kind (plain, array, tagged), a nullable struct and nested struct arrays. (4) Orders: in 4 (quick) / 14 (thorough) fresh processes the readers and writers of ALL 1629 classes are created and used in a different order (forward, reverse, seeded shuffles); per class up to 12 fixed calls (decode of a populated, a zero, a conforming explicit-default/explicit-null and up to three null-in-non-nullable encodings; encode of the corresponding instances) must have the same outcome (value or exception type) in every order; a difference is bisected to the earlier class that causes it. (5) Repetition: for 32 classes one cached writer and one cached reader are called 10000 (quick) / 300000 (thorough) times each on a populated value; every result must equal the reference encoding / the value; and for 6 classes 70000 (quick) / 600000 (thorough) DISTINCT values (every string, bytes, uuid and wide integer unique) go through one reader/writer pair, each must re-encode to its reference bytes, and the first 64 are decoded again afterwards. Non-trivial = history with a failed call "
+    "additionally ONE preemption is swept over EVERY step of fixed two/three-thread programs (warm and cold caches, two different values of one class) exhaustively, and EVERY PAIR of preemptions (park thread 0 at k1, park thread 1 at k2, resume 0, then 1) is swept over a warm two-thread program whose values hold multi-item arrays. EVERY PAIR of preemption points is also swept over the COLD construction of two readers by two threads (RequestHeader v2 and a class with compact strings), the closures being used afterwards. Additionally one preemption is swept over every step of thread 0 working on class X while thread 1 works on a DIFFERENT class Y (warm encode and decode), for consecutive pairs of a greedy cover of small classes that together contain every field kind (plain, array, tagged), a nullable struct and nested struct arrays. (4) Orders: in 4 (quick) / 14 (thorough) fresh processes the readers and writers of ALL 1629 classes are created and used in a different order (forward, reverse, seeded shuffles); per class up to 12 fixed calls (decode of a populated, a zero, a conforming explicit-default/explicit-null and up to three null-in-non-nullable encodings; encode of the corresponding instances) must have the same outcome (value or exception type) in every order; a difference is bisected to the earlier class that causes it. (5) Repetition: for 40 classes (the 13 tag-bearing messages first; each also goes big/small/big/small through one cached closure, the big value having 9000-byte strings and 400-item tagged arrays) one cached writer and one cached reader are called 10000 (quick) / 300000 (thorough) times each on a populated value; every result must equal the reference encoding / the value; and for 6 classes 70000 (quick) / 600000 (thorough) DISTINCT values (every string, bytes, uuid and wide integer unique) go through one reader/writer pair, each must re-encode to its reference bytes, and the first 64 are decoded again afterwards. Non-trivial = history with a failed call "
     "followed by a successful call on the same closure / fault k strictly inside the call / schedule with >=1 "
     "preemption landing inside entity_reader/entity_writer construction or read_entity/write_entity; distinct by hash."
 )
@@ -748,8 +748,17 @@ def run_schedule(items: list[Item], programs: list[list], preemptions: list, col
                 out.append(("schedule:decode-differs", f"thread {tid} decoded {it.cd.path} as {got[0]!r:.200}; preemptions {r.preempted_at}"))
     # afterwards, single-threaded, the cached closures must still be right
     for it in items:
-        if K.encode(it.cd.cls, it.value) != it.pristine:
-            out.append(("schedule:encode-differs-afterwards", f"{it.cd.path} after schedule {r.preempted_at}"))
+        try:
+            if K.encode(it.cd.cls, it.value) != it.pristine:
+                out.append(("schedule:encode-differs-afterwards", f"{it.cd.path} after schedule {r.preempted_at}"))
+        except Exception as e:
+            out.append((f"schedule:encode-raised-afterwards:{K.exc_signature(e)}", f"{it.cd.path} after schedule {r.preempted_at}: {e!r}"))
+        try:
+            back, used = K.decode(it.cd.cls, it.pristine)
+            if not py_equal(back, it.value) or used != len(it.pristine):
+                out.append(("schedule:decode-differs-afterwards", f"{it.cd.path} decodes to {back!r:.200} after schedule {r.preempted_at}"))
+        except Exception as e:
+            out.append((f"schedule:decode-raised-afterwards:{K.exc_signature(e)}", f"{it.cd.path} after schedule {r.preempted_at}: {e!r}"))
     return out, r
 
 
@@ -914,6 +923,57 @@ def _pair_sweep_worker(task):
     clear_caches()
     rep.extra["counters"] = c
     return rep
+
+
+# cold CREATION of two readers (or writers) by two threads, every pair of preemption points: thread 0 is parked at k1 inside
+# its construction, thread 1 is parked at k2 inside its own, thread 0 finishes, then thread 1.  The closures built that way
+# are used afterwards (single-threaded) on a populated value.
+COLD_PAIRS_QUICK = [("cold-create-readers", "r", "kio.schema.request_header.v2.header:RequestHeader",
+                     "kio.schema.find_coordinator.v4.request:FindCoordinatorRequest")]
+COLD_PAIRS_THOROUGH = COLD_PAIRS_QUICK + [
+    ("cold-create-writers", "w", "kio.schema.request_header.v2.header:RequestHeader", "kio.schema.find_coordinator.v4.request:FindCoordinatorRequest"),
+    ("cold-create-readers-b", "r", "kio.schema.request_header.v1.header:RequestHeader", "kio.schema.api_versions.v3.response:ApiVersionsResponse"),
+    ("cold-create-readers-c", "r", "kio.schema.fetch_snapshot.v1.request:FetchSnapshotRequest", "kio.schema.request_header.v2.header:RequestHeader"),
+]
+
+
+def _cold_pair_items(a: str, b: str):
+    return [(a, tree_to_json(populated_tree(D.describe(D.resolve(a)), 1, 0))), (b, tree_to_json(populated_tree(D.describe(D.resolve(b)), 1, 1)))]
+
+
+def _cold_pair_worker(task):
+    name, op, a, b, k1_lo, k1_hi, span = task
+    rep = Report(prop=ID, level="exploration", rule=RULE)
+    trees_json = _cold_pair_items(a, b)
+    items = _schedule_items(trees_json)
+    programs = [[(op, 0)], [(op, 1)]]
+    c = {"cold_pair_schedules": 0}
+    for k1 in range(k1_lo, k1_hi):
+        for k2 in range(k1 + 1, k1 + span + 2):
+            fails, r = run_schedule(items, programs, [(k1, 1), (k2, 0)], cold=True)
+            c["cold_pair_schedules"] += 1
+            rep.evaluations += 1
+            if len(r.preempted_at) == 2:
+                rep.nontrivial.add(case_hash(("coldpair", name, k1, k2)))
+            for sig, msg in fails:
+                rep.add_failure(Failure(sig, f"[cold pair sweep {name}] " + msg, {"kind": "schedule-abs", "items": trees_json, "programs": programs,
+                                                                                 "preemptions": [[k1, 1], [k2, 0]], "cold": True}, len(msg)))
+    clear_caches()
+    rep.extra["counters"] = c
+    return rep
+
+
+def cold_pair_tasks(ctx: Ctx) -> list:
+    tasks = []
+    for name, op, a, b in (COLD_PAIRS_QUICK if ctx.quick else COLD_PAIRS_THOROUGH):
+        items = _schedule_items(_cold_pair_items(a, b))
+        _f, dry0 = run_schedule(items, [[(op, 0)], []], [], cold=True)
+        _f, dry1 = run_schedule(items, [[], [(op, 1)]], [], cold=True)
+        s0, s1 = dry0.steps, dry1.steps
+        for lo in range(0, s0, 4):
+            tasks.append((name, op, a, b, lo, min(s0, lo + 4), s1))
+    clear_caches()
+    return tasks
 
 
 def pair_sweep_tasks(ctx: Ctx, shards: int) -> list:
@@ -1274,11 +1334,68 @@ def _flood_worker(task):
 
 
 
+def big_tree(cd: D.ClassDesc, depth: int = 0) -> dict:
+    """populated_tree with 9000-byte strings/bytes and 400-item TAGGED arrays: tagged sections far above 8 KiB."""
+    from ..refcodec import Present
+
+    t = {}
+    for f in cd.fields:
+        n = 400 if (f.tag is not None and depth == 0) else 2
+        if f.kind == "struct":
+            make = lambda f=f: big_tree(f.struct, depth + 1) if depth < 1 else populated_tree(f.struct, 1, 0)  # noqa: E731
+        elif f.kind == "float64":
+            make = lambda: bytes.fromhex("3ff8000000000000")  # noqa: E731
+        elif f.kind == "uuid":
+            make = lambda: b"\x07" * 16  # noqa: E731
+        elif f.kind in ("string", "bytes", "records"):
+            make = lambda: b"B" * 9000  # noqa: E731
+        elif f.kind == "bool":
+            make = lambda: 1  # noqa: E731
+        elif f.kind == "error_code":
+            make = lambda: 3  # noqa: E731
+        else:
+            make = lambda: 6  # noqa: E731
+        v = [make() for _ in range(n)] if f.array else make()
+        t[f.name] = Present(v) if f.tag is not None else v
+    return t
+
+
+def size_sequence(path: str) -> list[tuple[str, str]]:
+    """big, small, big, small through ONE cached writer/reader: the result for the small value must not depend on the
+    size of what went through the closure before (capacity hints, pre-sized or recycled buffers)."""
+    cd = D.describe(D.resolve(path))
+    small, big = populated_tree(cd, 2, 0), big_tree(cd)
+    want_small, want_big = ref_encode(cd, small), ref_encode(cd, big)
+    v_small, v_big = to_entity(cd, small), to_entity(cd, big)
+    clear_caches()
+    writer, reader = K.entity_writer(cd.cls), K.entity_reader(cd.cls)
+    out = []
+    try:
+        for step, (value, want) in enumerate([(v_big, want_big), (v_small, want_small), (v_big, want_big), (v_small, want_small)]):
+            buf = io.BytesIO()
+            writer(buf, value)
+            if buf.getvalue() != want:
+                out.append(("sizes:encode-differs", f"{path}: step {step} of big/small/big/small ({len(want_big)} / {len(want_small)} reference bytes): the writer produced "
+                            f"{len(buf.getvalue())} bytes, reference has {len(want)}; first bytes {buf.getvalue()[:60].hex()}"))
+                break
+            src = io.BytesIO(want)
+            got = reader(src)
+            if src.tell() != len(want) or not py_equal(got, value):
+                out.append(("sizes:decode-differs", f"{path}: step {step} of big/small/big/small: the reader returned a different value (consumed {src.tell()} of {len(want)})"))
+                break
+    finally:
+        clear_caches()
+    return out
+
+
 def _repeat_worker(task):
     paths, n = task
     rep = Report(prop=ID, level="exploration", rule=RULE)
     c = {"repeat_calls": 0}
     for path in paths:
+        for sig, msg in size_sequence(path):
+            rep.add_failure(Failure(sig, msg, {"kind": "sizes", "class": path}, 1))
+        rep.evaluations += 8
         fails = repetition(path, n)
         rep.evaluations += 2 * n
         c["repeat_calls"] += 2 * n
@@ -1335,6 +1452,9 @@ def run(ctx: Ctx) -> Report:
     for rep in pool_map(_pair_sweep_worker, pair_sweep_tasks(ctx, shards)):
         total.merge(rep)
     lap("pair_preemption_sweeps")
+    for rep in pool_map(_cold_pair_worker, cold_pair_tasks(ctx)):
+        total.merge(rep)
+    lap("cold_creation_pair_sweeps")
     kp = kind_pair_tasks(ctx, shards)
     total.extra["kind_cover_classes"] = kind_cover_classes()
     for rep in pool_map(_sweep_worker, kp):
@@ -1345,7 +1465,7 @@ def run(ctx: Ctx) -> Report:
     lap("orders")
     # (5) many uses of one cached closure
     n_rep = 10000 if ctx.quick else 300000
-    rpaths = paths[:32]
+    rpaths = list(dict.fromkeys(tag_bearing_messages() + paths))[:40]
     for rep in pool_map(_repeat_worker, [(rpaths[i::shards], n_rep) for i in range(shards)]):
         total.merge(rep)
     lap("repetition")
@@ -1374,6 +1494,8 @@ def replay(case):
     if kind == "schedule":
         programs = [[tuple(op) for op in p] for p in case["programs"]]
         return eval_schedule(case["items"], programs, [tuple(p) for p in case["preemptions"]])[0]
+    if kind == "sizes":
+        return size_sequence(case["class"])
     if kind == "repeat":
         return repetition(case["class"], case["n"])
     if kind == "flood":
